@@ -594,6 +594,20 @@ func (fc *FnCtx) applyContract(st *State, ct *FuncContract, fn *types.Func, cpos
 		t := fc.specBool(st, cl.Expr, &specEnv{fc: fc, st: st, old: st, bind: bind, callee: ct})
 		fc.assert(st, "requires", fmt.Sprintf("call[%s].%s", key, clauseName("requires", cl, k)), t, cpos, cl.Src)
 	}
+	// a callee that is entered with a monitored lock held: the caller has to hold (an instance of) that lock
+	for _, h := range ct.Holds {
+		suffix := h
+		if k := strings.Index(h, "."); k >= 0 {
+			suffix = h[k:]
+		}
+		cond := tFalse
+		for k, v := range st.held {
+			if strings.HasSuffix(k, suffix) {
+				cond = or(cond, v)
+			}
+		}
+		fc.assert(st, "monitor", fmt.Sprintf("call[%s].holds[%s]", contractKeyDisplay(ct), h), cond, cpos, "called with "+h+" held")
+	}
 	// effects
 	fc.applyModifies(st, ct, bind, pn, pt)
 	// results
